@@ -254,6 +254,25 @@ func (e *encExec) Do(o *Out, f []string) string {
 				return index.Uint16(uint16(x))
 			}
 		}
+		// keys are composed by appending to them: that leaves the encoder's later answers alone
+		manual := func(x uint64) []byte {
+			out := make([]byte, w)
+			for i := w - 1; i >= 0; i-- {
+				out[i] = byte(x)
+				x >>= 8
+			}
+			return out
+		}
+		for _, x := range []uint64{a, a % 251} {
+			k := append(enc(x), 0xEE, 0xEE, 0xEE, 0xEE, 0xEE, 0xEE, 0xEE, 0xEE)
+			_ = k
+			for _, y := range []uint64{x, x + 1, x + 2} {
+				if got := enc(y); !bytes.Equal(got, manual(y)) {
+					o.Fail("C18", "int-key-aliased", map[string]string{"width": f[1]},
+						fmt.Sprintf("after append(Uint%d(%d), ...) the encoder answers Uint%d(%d) = %s, want %s — equal values no longer give equal keys", w*8, x, w*8, y, hx(got), hx(manual(y))))
+				}
+			}
+		}
 		ka, kb := enc(a), enc(b)
 		want := 0
 		if a < b {
